@@ -98,7 +98,51 @@ class StrDomain(Domain):
 
     def init_field(self, path, node):
         if path[-1] == 'm_path': return self.path
+        d_ = self.derived(path)
+        if d_ is not None: return d_
         return Unknown('field:' + str(path[-1]))
+
+    def derived(self, path):
+        """a member that the class computes from m_path wherever it sets m_path (a cached position of the last separator, a cached
+        length): its value is that expression evaluated on this object's path.  Only when every assignment to the member in the class
+        is the same expression over m_path alone."""
+        name = path[-1]
+        ex = getattr(self, 'ex', None)
+        if ex is None or getattr(self, '_deriving', False): return None
+        srcs = []
+        for g in ex.facts.fns:
+            if g.d.get('class') != P or g.d.get('lambda'): continue
+            for n in g.nodes():
+                if n.k == 'binop' and n.op == '=' and n.n('lhs') is not None and n.n('lhs').k == 'member' and n.n('lhs').field and n.n('lhs').name == name and n.n('lhs').n('base') is not None and n.n('lhs').n('base').k == 'this':
+                    srcs.append((g, n.n('rhs')))
+        srcs = [(g, r) for g, r in srcs if r is not None and any(x.k == 'member' and x.field and x.name == 'm_path' for x in r.walk())
+                and not any(x.k == 'ref' and x.dk in ('param', 'local') for x in r.walk())]
+        if not srcs or len({r.text() for g, r in srcs}) != 1: return None
+        # ... and every member function that changes m_path also sets the member (otherwise it may be stale: not derived, not decided)
+        MUT = ('operator=', 'operator+=', 'assign', 'append', 'erase', 'insert', 'clear', 'pop_back', 'push_back', 'replace', 'resize', 'swap')
+        for g in ex.facts.fns:
+            if g.d.get('class') != P or g.d.get('lambda') or g.d.get('defaulted'): continue
+            changes = any((n.k == 'binop' and n.op in ('=', '+=') and n.n('lhs') is not None and n.n('lhs').k == 'member' and n.n('lhs').field and n.n('lhs').name == 'm_path') or
+                          (n.k == 'call' and n.callee_base() in MUT and (n.n('object') if n.n('object') is not None else (n.ns('args')[0] if n.ns('args') else None)) is not None
+                           and (n.n('object') if n.n('object') is not None else n.ns('args')[0]).k == 'member' and (n.n('object') if n.n('object') is not None else n.ns('args')[0]).name == 'm_path'
+                           and (n.n('object') if n.n('object') is not None else n.ns('args')[0]).n('base') is not None and (n.n('object') if n.n('object') is not None else n.ns('args')[0]).n('base').k == 'this')
+                          for n in g.nodes()) or any(i.get('field') == 'm_path' for i in (g.d.get('inits') or []) if g.d.get('ctor') and i.get('init') and not (g.d.get('copy') or g.d.get('move')))
+            if not changes: continue
+            sets = any(n.k == 'binop' and n.op == '=' and n.n('lhs') is not None and n.n('lhs').k == 'member' and n.n('lhs').field and n.n('lhs').name == name for n in g.nodes()) \
+                or any(i.get('field') == name for i in (g.d.get('inits') or [])) \
+                or any(n.k == 'call' and n.callee_in_root and any(t in [h for h, _ in srcs] for t in ex.facts.resolve(n)) for n in g.nodes())
+            if not sets: return None
+        from symex import Frame, State
+        g, rhs = srcs[0]
+        self._deriving = True
+        try:
+            st = getattr(ex, '_st', None) or State()
+            v = ex._rvalue(rhs, st, Frame(g, tuple(path[:-1]), 1))
+        except Exception:
+            v = None
+        finally:
+            self._deriving = False
+        return v if isinstance(v, (Lin, SStr)) else None
 
     FS = ('exists', 'isFile', 'isDirectory', 'listChildren', 'size', 'getWorkingDirectory', 'setWorkingDirectory')
 
